@@ -171,6 +171,50 @@ def case_eval(rec, c):
     rec.trace()
 
 
+HIST_OPS = ['sig:0.9', 'sig:1.3', 'ev:g1', 'ev:g2']
+HIST_GRIDS = {'g1': [64, 0.1], 'g2': [50, 0.07]}
+
+
+def case_hist(rec, c):
+    """One potential object through a history of sigma assignments (what createPRISM does for a defaulted sigma and
+    what a user does with `potential.sigma = x`) and evaluations on two grids: every evaluation must be the documented
+    form for the sigma that is current at that moment."""
+    name, p, sigma = c['cls'], c['params'], c['start']
+    U = build.make_potential([name, dict(p, sigma=sigma) if sigma is not None else dict(p)])
+    rec.state()
+    doms = {g: build.make_domain({'length': v[0], 'dr': v[1]}) for g, v in HIST_GRIDS.items()}
+    for n, op in enumerate(c['ops']):
+        hist = dict(c, ops=c['ops'][:n + 1])
+        kind, arg = op.split(':')
+        if kind == 'sig':
+            sigma = float(arg)
+            U.sigma = sigma
+            rec.trans()
+            continue
+        if sigma is None:
+            rec.count('disabled')
+            return
+        r = doms[arg].r
+        r0 = r.copy()
+        with np.errstate(all='ignore'):
+            try:
+                got = np.array(U.calculate(r), dtype=float)
+            except Exception as e:
+                rec.fail(hist, '%s history %s: calculate raised %s: %s' % (CLS[name], c['ops'][:n + 1], type(e).__name__, str(e)[:80]), tags(name, 'raises'))
+                return
+        rec.trans()
+        if not np.array_equal(r, r0):
+            rec.fail(hist, '%s.calculate modified r' % CLS[name], tags(name, 'purity'))
+            return
+        if got.shape != r.shape:
+            rec.fail(hist, 'shape %r' % (got.shape,), tags(name, 'value'))
+            return
+        if compare(rec, hist, name, p, r, sigma, got, 'after history %s on one object' % (c['ops'][:n + 1],)):
+            return
+    rec.trace()
+    rec.outcome(core.digest([name, p, c['start'], c['ops']]))
+
+
 def case_wire(rec, c):
     """sigma defaulting and wiring through createPRISM for one pair of diameters."""
     name, p, (L, dr), (dA, dB), kT = c['cls'], c['params'], c['grid'], c['diam'], c['kT']
@@ -215,7 +259,7 @@ def case_wire(rec, c):
 def replay(rec, case):
     with warnings.catch_warnings():
         warnings.simplefilter('ignore')
-        {'eval': case_eval, 'wire': case_wire}[case['kind']](rec, case)
+        {'eval': case_eval, 'wire': case_wire, 'hist': case_hist}[case['kind']](rec, case)
 
 
 def sigmas_for(dr, count):
@@ -230,7 +274,15 @@ def _worker(item):
     rec = Rec('C10')
     with warnings.catch_warnings():
         warnings.simplefilter('ignore')
-        if item[0] == 'eval':
+        if item[0] == 'hist':
+            _, name, p, depth = item
+            for start in (None, 1.1):
+                for d in range(1, depth + 1):
+                    for ops in itertools.product(HIST_OPS, repeat=d):
+                        if not ops[-1].startswith('ev'):
+                            continue
+                        case_hist(rec, {'kind': 'hist', 'cls': name, 'params': p, 'start': start, 'ops': list(ops)})
+        elif item[0] == 'eval':
             _, name, p, grid, nsig = item
             for s in sigmas_for(grid[1], nsig):
                 if s >= grid[0] * grid[1]:
@@ -263,6 +315,9 @@ def run(rec, tier, seed):
         for p in params[name]:
             for g in grids:
                 items.append(('eval', name, p, g, nsig))
+    for name in CLS:
+        for p in params[name]:
+            items.append(('hist', name, p, 3 if tier == 'quick' else 5))
     lat = [round(0.5 + 0.1 * i, 1) for i in range(36)]
     if tier == 'quick':
         lat = lat[:16]
@@ -272,6 +327,8 @@ def run(rec, tier, seed):
             items.append(('wire', name, p, [128, 0.1], [dA], lat, 1.7))
     core.pmap(_worker, items, rec, chunksize=2)
     rec.note('alphabets', {'classes': list(CLS), 'params': params, 'grids': grids, 'sigmas_per_grid': 'm*dr for m=2..%d plus 1.03, 2.57' % (nsig + 1),
-                           'diameter_lattice': [lat[0], lat[-1], 0.1]})
+                           'diameter_lattice': [lat[0], lat[-1], 0.1],
+                           'history_ops': HIST_OPS, 'history_grids': HIST_GRIDS, 'history_depth': 3 if tier == 'quick' else 5, 'history_start_sigma': [None, 1.1]})
+    rec.sample({'kind': 'hist', 'cls': 'WCA', 'params': {'epsilon': 0.5}, 'start': 1.1, 'ops': ['ev:g1', 'sig:0.9', 'ev:g1']})
     rec.sample({'kind': 'eval', 'cls': 'HCLJ', 'params': {'epsilon': 0.5}, 'grid': [128, 0.1], 'sigma': 1.2})
     rec.sample({'kind': 'wire', 'cls': 'EXP', 'params': {'epsilon': 0.3, 'alpha': 0.5}, 'grid': [128, 0.1], 'diam': [1.0, 1.4], 'kT': 1.7})
